@@ -1,7 +1,7 @@
 //! stdin: the output of a TLC run (vector lines are JSON strings as printed by PrintT(ToJson(..)));
 //! executes every vector on the real crate, prints VIOLATION lines, writes a summary JSON.
 use coset_verif_harness::machine::silence_panics;
-use coset_verif_harness::runner::{run_vector, Ctx, Known};
+use coset_verif_harness::runner::{run_vector_guarded, Ctx, Known};
 use std::io::{BufRead, Write};
 
 fn arg(name: &str) -> Option<String> {
@@ -69,12 +69,12 @@ fn main() {
         if line.starts_with("\"{") {
             // a TLA+ string literal holding JSON: unescape, then parse
             match serde_json::from_str::<String>(&line).ok().and_then(|s| coset_verif_harness::json_deep(&s)) {
-                Some(v) => run_vector(&mut ctx, &v),
+                Some(v) => run_vector_guarded(&mut ctx, &v),
                 None => bad_lines += 1,
             }
         } else if line.starts_with('{') {
             match serde_json::from_str::<serde_json::Value>(&line) {
-                Ok(v) => run_vector(&mut ctx, &v),
+                Ok(v) => run_vector_guarded(&mut ctx, &v),
                 Err(_) => bad_lines += 1,
             }
         } else if let Some(f) = tlc_log.as_mut() {
